@@ -10,6 +10,7 @@ from ..core import Ctx, Violation, HarnessError, SimCrash, rng_for, np_rng, cano
 from ..simfs import SimFS, SimDisk, Patched
 
 PROPS = ("C15",)
+ISOLATE = True      # constructors have function-default state: every run starts in a forked child
 
 CLASSES = ["HvsrPreProcessingSettings", "PsdPreProcessingSettings", "PsdProcessingSettings",
            "HvsrTraditionalProcessingSettings", "HvsrTraditionalSingleAzimuthProcessingSettings",
@@ -422,12 +423,11 @@ def execute(triple, prop):
                     if fault:
                         size = len(json.dumps(o.attr_dict))
                         fault["at"] = min(max(0, int(fault["frac"] * size)), max(0, size - 1))
-                        fault["path"] = path
-                        st.fs.arm(fault)
+                        live = st.fs.arm(fault)     # applies to whatever file the save opens (also a temporary name)
                         fault_kind = fault["kind"]
                         try:
                             do_save()
-                            ctx.check(fault["kind"] == "short_write", "write_fault_swallowed",
+                            ctx.check(fault["kind"] == "short_write" or not live.get("fired"), "write_fault_swallowed",
                                       f"{fault['kind']} during save but the call returned normally", key={"kind": fault["kind"]})
                             st.saved[path] = (content(o), i)
                         except SimCrash:
@@ -500,7 +500,13 @@ def execute(triple, prop):
                                           lambda: f"a failed load half-applied attributes: {first_diff(before[target], c)}")
                         finally:
                             st.fs.disarm()
-                    got = do_load()
+                    try:
+                        got = do_load()
+                    except Exception as ex:                     # noqa
+                        ctx.check(False, "load_raised_after_completed_save",
+                                  f"reading a settings file written by a save that completed normally raised "
+                                  f"{type(ex).__name__}: {ex}", key={"cls": saved_content["class"]})
+                        continue
                     gc = content(got)
                     via = {"load_new": "direct", "load_into": "into_existing", "dispatch_read": "dispatcher"}[name]
                     ctx.check(gc["class"] == saved_content["class"], "class_changed",
